@@ -57,8 +57,10 @@ type Run struct {
 	// ManagePkgs lists rend package path suffixes whose lock operations are
 	// kernel-ordered in this run (e.g. "/orcas", "/handlers/inmem", "/metrics").
 	ManagePkgs []string
-	// YieldAtomics makes every satomic operation called from a managed package park.
+	// YieldAtomics makes every satomic operation called from a managed package park,
+	// for goroutines whose name starts with YieldPrefix.
 	YieldAtomics bool
+	YieldPrefix  string
 	// Poison makes ssync.Pool scribble over objects on Put.
 	Poison bool
 	// ParkSubmit makes srand Intn calls coming from batched.(*relay).submit park.
